@@ -74,7 +74,7 @@ pub fn run_item(tier: &str, idx: usize, only: Option<&Value>) -> MResult<ItemRes
     // magic-links and absolute links used as *components*
     for c in ["root/etc", "cwd/w", "fd/21/x", "fd/21/..", "exe/x", "root/..", "cwd/..", "fd/20/.", "ns/mnt/x", "root", "cwd", "exe", "fd/20", "fd/21", "fd/22", "fd/23", "fd/24", "ns/mnt", "ns/pid", "..", "../..", ".", "", "./", "nonexistent", "nonexistent/x", "fd/999", "task/../status"] { if base != "root" { subs.insert(c.into()); } }
     if base == "root" { for c in ["self/root/etc", "self/cwd", "self/exe", "thread-self/fd/20", "self/fd/21/x", "sys/kernel/ostype", "sys/fs/protected_symlinks", "1/status", "1/root", "..", ".", "", "nonexistent", "self/../uptime", "mounts", "net", "self/net"] { subs.insert(c.into()); } }
-    let flagsets: Vec<i64> = if th { vec![O_PATH, O_RDONLY, O_RDONLY | O_DIRECTORY, O_PATH | O_NOFOLLOW, O_RDONLY | O_NOFOLLOW, O_PATH | O_DIRECTORY, O_CREAT | O_RDWR, O_EXCL | O_RDONLY, O_TMPFILE | O_RDWR, O_CREAT | O_EXCL | O_WRONLY] } else { vec![O_PATH, O_RDONLY | O_NONBLOCK, O_RDONLY | O_DIRECTORY, O_PATH | O_NOFOLLOW, O_CREAT | O_RDWR, O_TMPFILE | O_RDWR, O_EXCL | O_RDONLY] };
+    let flagsets: Vec<i64> = if th { vec![O_PATH, O_RDONLY, O_RDONLY | O_DIRECTORY, O_PATH | O_NOFOLLOW, O_RDONLY | O_NOFOLLOW, O_PATH | O_DIRECTORY, O_CREAT | O_RDWR, O_EXCL | O_RDONLY, O_TMPFILE | O_RDWR, O_CREAT | O_EXCL | O_WRONLY, (O_TMPFILE & !O_DIRECTORY) | O_RDWR, (O_TMPFILE & !O_DIRECTORY) | O_WRONLY] } else { vec![O_PATH, O_RDONLY | O_NONBLOCK, O_RDONLY | O_DIRECTORY, O_PATH | O_NOFOLLOW, O_CREAT | O_RDWR, O_TMPFILE | O_RDWR, O_EXCL | O_RDONLY, (O_TMPFILE & !O_DIRECTORY) | O_RDWR] };
 
     let magic = |sub: &str| -> bool { let s = sub.trim_start_matches("./").trim_end_matches('/'); let last2: Vec<&str> = s.rsplit('/').take(2).collect(); matches!(last2[0], "root" | "cwd" | "exe") || (last2.len() == 2 && matches!(last2[1], "fd" | "ns" | "map_files")) };
     for sub in &subs {
@@ -97,7 +97,7 @@ pub fn run_item(tier: &str, idx: usize, only: Option<&Value>) -> MResult<ItemRes
         for (i, op) in ops.iter().enumerate() {
             res.evaluations += 2;
             let fl = op.flags.unwrap_or(0);
-            let creation = fl & (O_CREAT | O_EXCL) != 0 || fl & O_TMPFILE == O_TMPFILE;
+            let creation = fl & (O_CREAT | O_EXCL) != 0 || fl & (O_TMPFILE & !O_DIRECTORY) != 0; // the __O_TMPFILE bit alone: a trailing slash (=> O_DIRECTORY) would complete it
             let clean = sub.trim_end_matches('/');
             let comps: Vec<&str> = clean.split('/').filter(|c| !c.is_empty() && *c != ".").collect();
             let has_dotdot = comps.iter().any(|c| *c == "..");
